@@ -27,7 +27,7 @@ from antlr4 import InputStream, CommonTokenStream
 
 from explorerscript.antlr.SsbScriptLexer import SsbScriptLexer
 from explorerscript.antlr.SsbScriptParser import SsbScriptParser
-from explorerscript.error import ParseError
+from explorerscript.error import ParseError, SsbCompilerError
 from explorerscript.source_map import SourceMap
 from explorerscript.ssb_converting.compiler.label_jump_to_remover import OpsLabelJumpToRemover
 from explorerscript.ssb_converting.ssb_data_types import SsbOperation, SsbRoutineInfo
@@ -91,7 +91,16 @@ class SsbScriptSsbCompiler:
         parser.addParseListener(compiler_listener)
 
         # Start Parsing
-        parser.start()
+        try:
+            parser.start()
+        except (ParseError, SsbCompilerError, ValueError):
+            raise
+        except Exception as e:
+            # The listener works while the text is still being parsed, behind a syntax error it finds rules
+            # with parts missing.
+            if len(error_listener.syntax_errors) > 0:
+                raise ParseError(error_listener.syntax_errors[0]) from None
+            raise SsbCompilerError(f"The script could not be compiled ({type(e).__name__}: {e}).") from e
 
         # Look for errors
         if len(error_listener.syntax_errors) > 0:
